@@ -112,6 +112,13 @@ theorem recB_applyEvict_acc (g : State) (e : Evicted) : accView (applyEvict g e)
   simp only [applyEvict]
   split <;> rfl
 
+/-- so does the ticker's hook `applyEvictId` -/
+theorem recB_applyEvictId_acc (g : State) (e : Evicted) : accView (applyEvictId g e) = accView g := by
+  rw [Cached.applyEvictId_eq]
+  split
+  · exact recB_applyEvict_acc g e
+  · rfl
+
 theorem recB_updateWeightStats (st : Stats) (n o : Int) :
     (updateWeightStats st n o).hits = st.hits ∧ (updateWeightStats st n o).misses = st.misses ∧
     (updateWeightStats st n o).accessAdded = st.accessAdded ∧
@@ -133,7 +140,7 @@ theorem recB_wtrans {b b' : BState} (h : WTrans b b') : accView b'.g = accView b
 /-- the sweeper: nothing -/
 theorem recB_strans {b b' : BState} (h : STrans b b') : accView b'.g = accView b.g := by
   cases h
-  case store => simp only [sweepNext_g]; exact recB_applyEvict_acc _ _
+  case store => simp only [sweepNext_g]; exact recB_applyEvictId_acc _ _
   all_goals simp only [sweepNext_g]
   all_goals rfl
 
